@@ -420,6 +420,67 @@ type platform struct {
 	txt     *artifact
 	state   *types.State
 	tpm     *tpm.TPM
+	// the life of the *tpm.TPM object before the boot being run: how it was obtained ("NewTPM()", or
+	// recycled with "Reset()", "DoNotUse_ResetNoInit()", "DoNotUse_ResetNoInit() + SupportedAlgos
+	// restored") and the boots it served before (their descriptions, oldest first)
+	reuse   string
+	earlier []interface{}
+	// DoNotUse_ResetNoInit leaves the TPM without its list of supported algorithms ("does not set
+	// the state to a correct one"): LogInit then has no bank to write a startup entry for
+	noAlgos bool
+}
+
+const (
+	reuseNew        = "NewTPM()"
+	reuseReset      = "Reset()"
+	reuseNoInit     = "DoNotUse_ResetNoInit()"
+	reuseNoInitAlgs = "DoNotUse_ResetNoInit() + SupportedAlgos = SupportedHashAlgos()"
+)
+
+// startCode: the state the model starts the boot from (Model/BootSimCases.v start_state)
+func startCode(reuse string) int {
+	switch reuse {
+	case reuseReset:
+		return 1
+	case reuseNoInit:
+		return 2
+	case reuseNoInitAlgs:
+		return 3
+	}
+	return 0
+}
+
+// recycle prepares the next boot of a session: the SAME *tpm.TPM object (and, half of the time, the
+// same *types.State object, reset) serves another boot after having been reset the way the
+// repository's own callers do it (pcr0tool: Reset(); pcrbruteforcer: DoNotUse_ResetNoInit() and a
+// direct assignment of SupportedAlgos).  last is the description of the boot that just ended.
+func (p *platform) recycle(how string, last interface{}) {
+	p.earlier = append(p.earlier, last)
+	p.reuse = how
+	p.noAlgos = false
+	switch how {
+	case reuseReset:
+		p.tpm.Reset()
+	case reuseNoInit:
+		p.tpm.DoNotUse_ResetNoInit()
+		p.noAlgos = true
+	case reuseNoInitAlgs:
+		p.tpm.DoNotUse_ResetNoInit()
+		p.tpm.SupportedAlgos = tpm.SupportedHashAlgos()
+	}
+	s := p.state
+	if ctx.Rng.Intn(2) == 0 {
+		s.Reset()
+	} else {
+		s = types.NewState()
+	}
+	s.IncludeSubSystem(p.tpm)
+	s.IncludeSubSystem(intelpch.NewPCH())
+	s.IncludeSystemArtifact(p.img.real)
+	if p.hasRegs {
+		s.IncludeSystemArtifact(p.txt.real)
+	}
+	p.state = s
 }
 
 var img4kBytes []byte
@@ -433,6 +494,7 @@ func newPlatform(useFW bool, hasRegs bool, reg uint64) *platform {
 	}
 	p.img.real = biosimage.New(p.img.content)
 	p.tpm = tpm.NewTPM()
+	p.reuse = reuseNew
 	s := types.NewState()
 	s.IncludeSubSystem(p.tpm)
 	s.IncludeSubSystem(intelpch.NewPCH())
@@ -969,7 +1031,7 @@ func (p *platform) bind(st []*itemSpec, acts types.Actions) bool {
 		if i+n > len(acts) {
 			return nil
 		}
-		r := acts[i : i+n]
+		r := append([]types.Action{}, acts[i:i+n]...) // never nil: an item may have no action at all
 		i += n
 		return r
 	}
@@ -978,11 +1040,11 @@ func (p *platform) bind(st []*itemSpec, acts types.Actions) bool {
 		case "inittpm":
 			n := 1
 			if it.withLog {
-				n = 3
+				n = 1 + p.logBanks()
 			}
 			it.acts = take(n)
 		case "loginit":
-			it.acts = take(2)
+			it.acts = take(p.logBanks())
 		case "pcr0":
 			it.acts = take(len(acts) - i)
 			if !p.fillPCR0(it) {
@@ -996,6 +1058,14 @@ func (p *platform) bind(st []*itemSpec, acts types.Actions) bool {
 		}
 	}
 	return i == len(acts)
+}
+
+// logBanks: the number of startup-locality entries a LogInit writes (one per hash bank of the TPM)
+func (p *platform) logBanks() int {
+	if p.noAlgos {
+		return 0
+	}
+	return len(algs)
 }
 
 // fillPCR0 reads the references the PCR0_DATA step computed from its TPMExtend actions
@@ -1150,6 +1220,119 @@ func toParsed(log tpm.EventLog) *tpmeventlog.TPMEventLog {
 	return out
 }
 
+// ---- the ledger: what the ITEMS of a flow do to the PCR banks and to the event log, from the
+// property text and the TPM's rules alone (a TPM that was not started, a PCR other than 0/1 or a bank
+// other than SHA1/SHA256 refuses the extend; log entries are always accepted)
+
+type logEnt struct {
+	d         []byte
+	noAct     bool // typed EV_NO_ACTION: informational, no replay extends it
+	fromEvent bool // the log half of a TPMEvent (typed EV_NO_ACTION: finding C01-noaction-typed-event-extended)
+	startup   int  // locality carried by a startup-locality entry of LogInit, -1 for any other entry
+}
+
+type ledger struct {
+	started bool
+	l       uint8
+	ext     map[[2]uint16][][]byte
+	log     map[[2]uint16][]logEnt
+}
+
+func newLedger() *ledger {
+	return &ledger{ext: map[[2]uint16][][]byte{}, log: map[[2]uint16][]logEnt{}}
+}
+
+func (g *ledger) startup(l uint8) {
+	if !g.started { // a second TPM init is refused
+		g.started, g.l = true, l
+	}
+}
+
+func (g *ledger) extend(p uint8, a uint16, d []byte) bool {
+	if !g.started || p > 1 || hsize(a) == 0 {
+		return false
+	}
+	k := [2]uint16{uint16(p), a}
+	g.ext[k] = append(g.ext[k], d)
+	return true
+}
+
+func (g *ledger) logAdd(p uint8, a uint16, e logEnt) {
+	k := [2]uint16{uint16(p), a}
+	g.log[k] = append(g.log[k], e)
+}
+
+// logInit: one EV_NO_ACTION startup-locality entry per hash bank (zero digest of the bank's size), PCR0
+func (g *ledger) logInit(l uint8, banks int) {
+	for _, a := range algs[:banks] {
+		g.logAdd(0, a, logEnt{d: make([]byte, hsize(a)), noAct: true, startup: int(l)})
+	}
+}
+
+// everyExtendLogged: the digests extended into the bank are, in order, the digests of the entries
+// logged for it (informational EV_NO_ACTION entries aside; the log half of a TPMEvent counts as the
+// logging of its extend whatever its type)
+func (g *ledger) everyExtendLogged(p uint8, a uint16) bool {
+	if !g.started {
+		return false
+	}
+	k := [2]uint16{uint16(p), a}
+	var logged [][]byte
+	for _, e := range g.log[k] {
+		if !e.noAct || e.fromEvent {
+			logged = append(logged, e.d)
+		}
+	}
+	if len(logged) != len(g.ext[k]) {
+		return false
+	}
+	for i := range logged {
+		if !bytes.Equal(logged[i], g.ext[k][i]) {
+			return false
+		}
+	}
+	return true
+}
+
+func (g *ledger) tainted(p uint8, a uint16) bool {
+	for _, e := range g.log[[2]uint16{uint16(p), a}] {
+		if e.noAct && e.fromEvent {
+			return true
+		}
+	}
+	return false
+}
+
+func (g *ledger) hasStartupEntry(a uint16) bool {
+	for _, e := range g.log[[2]uint16{0, a}] {
+		if e.startup >= 0 {
+			return true
+		}
+	}
+	return false
+}
+
+// startupKnownFromLog: what the routine that sees only the log needs (the property's restriction "flows
+// whose TPM startup is logged or uses locality 0"): every entry of the bank carries a digest of the
+// bank's size; PCR0: either one startup entry, carrying the startup locality and preceding everything
+// else logged for the bank, or none and locality 0; no other informational entry in the bank
+func (g *ledger) startupKnownFromLog(p uint8, a uint16) bool {
+	es := g.log[[2]uint16{uint16(p), a}]
+	info := 0
+	for i, e := range es {
+		if len(e.d) != hsize(a) {
+			return false
+		}
+		if e.noAct && !e.fromEvent {
+			info++
+			if p != 0 || i != 0 || e.startup != int(g.l) {
+				return false
+			}
+		}
+	}
+	return p != 0 || info == 1 || g.l == 0
+}
+
 // wfInfo: what the oracle needs to know about the shape of a flow
 type wfInfo struct {
 	ok     bool
@@ -1213,8 +1396,10 @@ func wellFormed(items []*itemSpec, digestOf func(*itemSpec) []byte) wfInfo {
 }
 
 type runResult struct {
-	kind  string
-	plat  *platform
+	kind    string
+	reuse   string        // how the TPM object of this boot was obtained (platform.reuse at the time of the boot)
+	earlier []interface{} // the boots the object served before
+	plat    *platform
 	steps [][]*itemSpec // executed TPM-relevant steps
 	flags [][]bool
 	proc  *bootengine.BootProcess
@@ -1255,7 +1440,7 @@ func stepFlags(sr bootengine.StepResult, st []*itemSpec) []bool {
 
 func runGenerated(kind string, p *platform, items []*itemSpec) *runResult {
 	steps := group(items)
-	r := &runResult{kind: kind, plat: p, steps: steps}
+	r := &runResult{kind: kind, plat: p, steps: steps, reuse: p.reuse, earlier: append([]interface{}{}, p.earlier...)}
 	ctx.Begin("running a boot flow built from the public constructors", "pkg/bootflow/bootengine: BootProcess.Finish", r.descr())
 	p.state.SetFlow(types.NewFlow("c01-"+kind, realize(steps)))
 	proc := bootengine.NewBootProcess(p.state)
@@ -1282,11 +1467,12 @@ func runGenerated(kind string, p *platform, items []*itemSpec) *runResult {
 
 func runBuiltin(kind string, p *platform, flow types.Flow) *runResult {
 	ctx.Begin("running the built-in flow "+flow.Name+" on the bundled fake Intel firmware", "pkg/bootflow/flows", map[string]interface{}{
-		"flow": flow.Name, "txt_registers": p.hasRegs, "ACM_POLICY_STATUS": fmt.Sprintf("%#x", p.reg)})
+		"flow": flow.Name, "txt_registers": p.hasRegs, "ACM_POLICY_STATUS": fmt.Sprintf("%#x", p.reg),
+		"tpm_object": p.reuse, "earlier_boots_on_this_tpm_object": p.earlier})
 	p.state.SetFlow(flow)
 	proc := bootengine.NewBootProcess(p.state)
 	proc.Finish(bg)
-	r := &runResult{kind: kind, plat: p, proc: proc}
+	r := &runResult{kind: kind, plat: p, proc: proc, reuse: p.reuse, earlier: append([]interface{}{}, p.earlier...)}
 	for _, sr := range proc.Log {
 		st, ok := p.derive(sr)
 		if !ok {
@@ -1318,8 +1504,13 @@ func (r *runResult) descr() interface{} {
 		}
 		steps = append(steps, is)
 	}
-	return map[string]interface{}{"kind": r.kind, "image": r.plat.img.coq, "txt_registers": r.plat.hasRegs,
+	m := map[string]interface{}{"kind": r.kind, "image": r.plat.img.coq, "txt_registers": r.plat.hasRegs,
 		"ACM_POLICY_STATUS": fmt.Sprintf("%#x", r.plat.reg), "steps": steps}
+	if r.reuse != reuseNew {
+		m["tpm_object"] = "the *tpm.TPM of the earlier boots, recycled with " + r.reuse + " before this boot"
+		m["earlier_boots_on_this_tpm_object"] = r.earlier
+	}
+	return m
 }
 
 func cmdLit(c tpm.Command) string {
@@ -1562,6 +1753,26 @@ func judge(r *runResult) {
 	ap := tpm.NewTPM()
 	var apErr error
 	apPan, _ := gal.Recover(func() { apErr = cmds.Apply(bg, ap) })
+	// ... and on a TPM object that is not new: it executed the same log once already and was recycled
+	// the way the repository's own callers recycle theirs
+	rc := tpm.NewTPM()
+	for _, c := range cmds {
+		gal.Recover(func() { _ = c.Apply(bg, rc) })
+	}
+	rcHow := pick(reuseReset, reuseReset, reuseNoInit, reuseNoInitAlgs)
+	switch rcHow {
+	case reuseReset:
+		rc.Reset()
+	case reuseNoInit:
+		rc.DoNotUse_ResetNoInit()
+	case reuseNoInitAlgs:
+		rc.DoNotUse_ResetNoInit()
+		rc.SupportedAlgos = tpm.SupportedHashAlgos()
+	}
+	rcClean := !rc.IsInitialized() && len(rc.CommandLog) == 0 && len(rc.EventLog) == 0
+	for _, c := range cmds {
+		gal.Recover(func() { _ = c.Apply(bg, rc) })
+	}
 
 	// --- oracle (b0): every PCR bank value is the TCG fold H(old || digest), from the startup value,
 	// of the extends the command log records for it (computed above with Go's crypto, independently of
@@ -1580,6 +1791,10 @@ func judge(r *runResult) {
 	// --- oracle (b): command log
 	expect(pcrsEqual(re.PCRValues, t.PCRValues), "re-executing the recorded command log (Apply by Apply) on a new TPM does not give the same PCR values",
 		"pkg/bootflow/subsystems/trustchains/tpm: TPMExecute/CommandLog vs Command.Apply")
+	expect(rcClean, "a TPM object recycled with "+rcHow+" is not as if it never received any command (initialised, or logs not empty)",
+		"pkg/bootflow/subsystems/trustchains/tpm/tpm.go:Reset / DoNotUse_ResetNoInit")
+	expect(pcrsEqual(rc.PCRValues, t.PCRValues), "re-executing the recorded command log (Apply by Apply) on a TPM object that had executed it once before and was recycled with "+rcHow+" does not give the same PCR values as the simulation",
+		"pkg/bootflow/subsystems/trustchains/tpm/command_init.go:Apply (re-use of the PCR buffers) / tpm.go:Reset")
 	if noIssues {
 		expect(!apPan && apErr == nil && pcrsEqual(ap.PCRValues, t.PCRValues),
 			"CommandLog.Commands().Apply on a new TPM does not reproduce the PCR values of a flow that ran without issues",
@@ -1604,40 +1819,76 @@ func judge(r *runResult) {
 			expect(false, fmt.Sprintf("command %s has a cause action that is not an action of the flow", e.Command.LogString()), "tpm.go:TPMExecute")
 		}
 	}
-	// --- oracle (a): event log
+	// --- oracle (a): event log.  Which flows the clause speaks about is decided from the ITEMS of the
+	// flow alone (never from what the TPM recorded): the ledger lists, per PCR bank, the digests the
+	// items extend and the entries they log, whatever the order and grouping of the items.
 	wfi := wellFormed(items, func(it *itemSpec) []byte {
 		if m := measOf[it]; m != nil && !it.src.err && m.readable {
 			return m.conv.b
 		}
 		return nil
 	})
-	wf, wl, logged := wfi.ok, wfi.l, wfi.logged
+	wf := wfi.ok
 	started = t.IsInitialized()
-	if wf && started {
-		if wl != loc {
-			expect(false, "startup locality of the command log differs from the flow's", "tpm_init.go")
-		}
-		// finding C01-noaction-typed-event-extended: a TPMEvent typed EV_NO_ACTION that was extended
-		// into PCR pi: both replay routines are expected to miss that PCR (and only that one)
-		var tainted [2]bool
-		for _, it := range wfi.noAct {
-			if cs := byCause[it.acts[0]]; cs != nil && it.p < 2 {
-				for _, c := range cs.cmds {
-					if _, ok := c.(*tpm.CommandExtend); ok {
-						tainted[it.p] = true
+	lg := newLedger()
+	for _, it := range items {
+		switch it.kind {
+		case "init":
+			lg.startup(it.l)
+		case "inittpm":
+			lg.startup(it.l)
+			if it.withLog {
+				lg.logInit(it.l, p.logBanks())
+			}
+		case "loginit":
+			lg.logInit(it.l, p.logBanks())
+		case "event":
+			if m := measOf[it]; m != nil && !it.src.err && m.readable {
+				for _, a := range algs {
+					d := hashOf(a, m.conv.b)
+					if lg.extend(it.p, a, d) {
+						lg.logAdd(it.p, a, logEnt{d: d, noAct: it.ty == evNoAct, fromEvent: true, startup: -1})
+					} else {
+						break // TPMEvent stops at the first command the TPM refuses
 					}
 				}
 			}
+		case "extend":
+			if m := measOf[it]; m != nil && !it.src.err && m.readable {
+				lg.extend(it.p, it.alg, m.conv.b)
+			}
+		case "logadd":
+			lg.logAdd(it.p, it.alg, logEnt{d: it.digest, noAct: it.ty == evNoAct, startup: -1})
+		case "pcr0":
+			for b := 0; b < 2; b++ {
+				if ms := pcr0Meas[it][b]; it.pcr0[b] != nil && ms != nil && ms.readable {
+					lg.extend(0, algs[b], ms.conv.b)
+					lg.logAdd(0, algs[b], logEnt{d: ms.conv.b, startup: -1})
+				}
+			}
 		}
+	}
+	if lg.started != started || (started && lg.l != loc) {
+		expect(false, fmt.Sprintf("the TPM is started=%v at locality %d after a flow whose first TPM init item is %v at locality %d", started, loc, lg.started, lg.l),
+			"pkg/bootflow/actions/tpmactions/tpm_init.go / pkg/bootflow/steps/tpmsteps/init_tpm.go")
+	}
+	if started && lg.started {
 		knownNoAct := func(pi int, what string) {
 			checks++
 			fails = append(fails, fail{knownNoAction, what + fmt.Sprintf(" (a TPMEvent of type EV_NO_ACTION was extended into PCR%d)", pi),
 				"pkg/bootflow/actions/tpmactions/tpm_event.go:TPMEvent.Apply (extends whatever the event type)"})
 		}
+		// the in-simulator routine, seeded with the startup locality: every flow in which every extend of
+		// PCR0 is logged (startup entries and other EV_NO_ACTION entries may be anywhere, or absent)
 		for i, a := range algs {
+			if !lg.everyExtendLogged(0, a) {
+				continue
+			}
+			ctx.Count("judged: tpm.EventLog.Replay")
 			pv, err := t.PCRValues.Get(0, tpm2.Algorithm(a))
 			good := err == nil && bytes.Equal(tpmReplays[i], pv)
-			if tainted[0] {
+			if lg.tainted(0, a) {
+				// finding C01-noaction-typed-event-extended: a TPMEvent typed EV_NO_ACTION that was extended
 				if !good {
 					knownNoAct(0, fmt.Sprintf("tpm.EventLog.Replay(0, %d, startup locality %d) != PCR0 bank value", a, loc))
 				}
@@ -1647,25 +1898,32 @@ func judge(r *runResult) {
 				fmt.Sprintf("tpm.EventLog.Replay(0, %d, startup locality %d) != PCR0 bank value after a flow in which every extend is logged", a, loc),
 				"pkg/bootflow/subsystems/trustchains/tpm/event_log.go:Replay")
 		}
-		if logged || wl == 0 {
-			for pi := 0; pi < 2; pi++ {
-				for ai, a := range algs {
-					pv, err := t.PCRValues.Get(pcr.ID(pi), tpm2.Algorithm(a))
-					x := replays[pi*2+ai]
-					good := err == nil && !x.pan && x.err == nil && bytes.Equal(x.v, pv)
-					if tainted[pi] {
-						if !good && !x.pan {
-							knownNoAct(pi, fmt.Sprintf("tpmeventlog.Replay(own event log, PCR%d, alg %d) != PCR bank value (replay error: %v)", pi, a, x.err))
-							continue
-						}
-						if good {
-							continue
-						}
-					}
-					expect(good, fmt.Sprintf("tpmeventlog.Replay(own event log, PCR%d, alg %d) != PCR bank value after a flow in which every extend is logged (startup locality %d, logged=%v)", pi, a, wl, logged),
-						"pkg/tpmeventlog/replay.go:Replay / pkg/bootflow/actions/tpmactions/tpm_event.go")
+		// the routine that knows only the log: additionally the startup must be logged (one startup entry
+		// carrying the startup locality, ahead of the measurements of PCR0) or have used locality 0
+		for pi := 0; pi < 2; pi++ {
+			for ai, a := range algs {
+				if !lg.everyExtendLogged(uint8(pi), a) || !lg.startupKnownFromLog(uint8(pi), a) {
+					continue
 				}
+				ctx.Count("judged: tpmeventlog.Replay")
+				pv, err := t.PCRValues.Get(pcr.ID(pi), tpm2.Algorithm(a))
+				x := replays[pi*2+ai]
+				good := err == nil && !x.pan && x.err == nil && bytes.Equal(x.v, pv)
+				if lg.tainted(uint8(pi), a) {
+					if !good && !x.pan {
+						knownNoAct(pi, fmt.Sprintf("tpmeventlog.Replay(own event log, PCR%d, alg %d) != PCR bank value (replay error: %v)", pi, a, x.err))
+						continue
+					}
+					if good {
+						continue
+					}
+				}
+				expect(good, fmt.Sprintf("tpmeventlog.Replay(own event log, PCR%d, alg %d) != PCR bank value after a flow in which every extend is logged (startup locality %d, startup entry logged=%v; replay error: %v)", pi, a, lg.l, lg.hasStartupEntry(a), x.err),
+					"pkg/tpmeventlog/replay.go:Replay / pkg/bootflow/actions/tpmactions/tpm_event.go")
 			}
+		}
+		if wf && !(lg.everyExtendLogged(0, algSHA1) && lg.everyExtendLogged(0, algSHA256) && lg.everyExtendLogged(1, algSHA1) && lg.everyExtendLogged(1, algSHA256)) {
+			ctx.Count("HARNESS INCONSISTENCY: flow of the well-formed shape outside the ledger's class")
 		}
 	}
 
@@ -1813,11 +2071,15 @@ func judge(r *runResult) {
 		}
 		stepLits = append(stepLits, gal.List(is))
 	}
-	lit := fmt.Sprintf("(mkCase\n    %s\n    %s\n    %s\n    %s\n    %s\n    %s %s %d\n    %s\n    %s\n    %s\n    (%s, %s))",
-		gal.List(ht.items), gal.List(stepLits), pcrsLit(t.PCRValues), gal.List(cmdLits), gal.List(evLits),
+	lit := fmt.Sprintf("(mkCase\n    %s\n    %d %s\n    %s\n    %s\n    %s\n    %s %s %d\n    %s\n    %s\n    %s\n    (%s, %s))",
+		gal.List(ht.items), startCode(r.reuse), gal.List(stepLits), pcrsLit(t.PCRValues), gal.List(cmdLits), gal.List(evLits),
 		gal.List(measLits), gal.List(flagLits), loc, gal.List(replayLits), gal.List(tpmReplayLits),
 		pcrsLit(re.PCRValues), gal.Bool(apOK), pcrsLit(ap.PCRValues))
 	kind := r.kind
+	if r.reuse != reuseNew {
+		kind += "+recycled TPM"
+	}
+	ctx.Count("TPM object of the boot: " + r.reuse)
 	if wf && started {
 		kind += "/wf"
 	}
@@ -1907,35 +2169,76 @@ func main() {
 		hasRegs := useFW && ctx.Rng.Intn(10) < 8
 		return newPlatform(useFW, hasRegs, ctx.Rng.Uint64())
 	}
-	for i := 0; i < nWF; i++ {
-		p := mkPlat()
-		judge(runGenerated("wf-gen", p, p.genWF()))
+	// a session: up to three boots on ONE *tpm.TPM object, recycled between the boots (every boot is a
+	// case of its own; the earlier boots of the object are part of its description)
+	nextReuse := func() string {
+		return pick(reuseReset, reuseReset, reuseReset, reuseNoInitAlgs, reuseNoInitAlgs, reuseNoInit)
 	}
-	for i := 0; i < nGen; i++ {
+	again := func(boot int) bool { return boot < 2 && ctx.Rng.Intn(100) < 30 }
+	for i := 0; i < nWF; {
 		p := mkPlat()
-		judge(runGenerated("general", p, p.genGeneral()))
+		for boot := 0; i < nWF; boot++ {
+			var r *runResult
+			if boot == 0 || ctx.Rng.Intn(4) > 0 {
+				r = runGenerated("wf-gen", p, p.genWF())
+			} else {
+				r = runGenerated("general", p, p.genGeneral())
+			}
+			judge(r)
+			i++
+			if !again(boot) {
+				break
+			}
+			p.recycle(nextReuse(), r.descr())
+		}
+	}
+	for i := 0; i < nGen; {
+		p := mkPlat()
+		for boot := 0; i < nGen; boot++ {
+			var r *runResult
+			if boot == 0 || ctx.Rng.Intn(4) > 0 {
+				r = runGenerated("general", p, p.genGeneral())
+			} else {
+				r = runGenerated("wf-gen", p, p.genWF())
+			}
+			judge(r)
+			i++
+			if !again(boot) {
+				break
+			}
+			p.recycle(nextReuse(), r.descr())
+		}
 	}
 	builtin := []types.Flow{flows.Root, flows.Intel, flows.IntelCBnT, flows.IntelLegacyTXTEnabled, flows.OCPPEI, flows.PEI,
 		flows.IntelLegacyTXTDisabled, flows.IntelCBnTFailure}
-	for i := 0; i < nIntel; i++ {
+	for i := 0; i < nIntel; {
 		reg := ctx.Rng.Uint64()
 		if i%5 == 0 {
 			reg = pick[uint64](0, 0x0000000200108681, 2, ^uint64(0))
 		}
-		p := newPlatform(true, i%7 != 6, reg)
-		f := builtin[i%len(builtin)]
-		r := runBuiltin("builtin:"+f.Name, p, f)
-		if r == nil {
-			// does not happen on the code as it is: every TPM step of the built-in flows is one the harness can
-			// describe (InitTPM, LogInit, PCR0_DATA, TPMEvent/TPMExtend/TPMEventLogAdd over image, raw-bytes or
-			// TXT-register references)
-			ctx.Count("builtin flow the harness cannot describe (no case)")
-			ctx.OracleFail(-1, "a step of the built-in flow "+f.Name+" does not yield the actions of its kind (InitTPM: init + one EV_NO_ACTION log entry per hash bank when logging; PCR0_DATA: extend + log entry per bank), or measures a reference of an unknown kind",
-				"pkg/bootflow/flows, pkg/bootflow/steps/tpmsteps, pkg/bootflow/steps/intelsteps", map[string]interface{}{
-					"flow": f.Name, "image": "bundled fake Intel firmware", "txt_registers": i%7 != 6, "ACM_POLICY_STATUS": fmt.Sprintf("%#x", reg)})
-			continue
+		hasRegs := i%7 != 6
+		p := newPlatform(true, hasRegs, reg)
+		for boot := 0; i < nIntel; boot++ {
+			f := builtin[i%len(builtin)]
+			r := runBuiltin("builtin:"+f.Name, p, f)
+			i++
+			if r == nil {
+				// does not happen on the code as it is: every TPM step of the built-in flows is one the harness can
+				// describe (InitTPM, LogInit, PCR0_DATA, TPMEvent/TPMExtend/TPMEventLogAdd over image, raw-bytes or
+				// TXT-register references)
+				ctx.Count("builtin flow the harness cannot describe (no case)")
+				ctx.OracleFail(-1, "a step of the built-in flow "+f.Name+" does not yield the actions of its kind (InitTPM: init + one EV_NO_ACTION log entry per hash bank when logging; PCR0_DATA: extend + log entry per bank), or measures a reference of an unknown kind",
+					"pkg/bootflow/flows, pkg/bootflow/steps/tpmsteps, pkg/bootflow/steps/intelsteps", map[string]interface{}{
+						"flow": f.Name, "image": "bundled fake Intel firmware", "txt_registers": hasRegs, "ACM_POLICY_STATUS": fmt.Sprintf("%#x", reg),
+						"tpm_object": p.reuse, "earlier_boots_on_this_tpm_object": p.earlier})
+				break
+			}
+			judge(r)
+			if !again(boot) {
+				break
+			}
+			p.recycle(nextReuse(), r.descr())
 		}
-		judge(r)
 	}
 	probeUTF8()
 	probeNoAction()
